@@ -12,8 +12,10 @@ CLAIMS = {
              "of stream bytes written, and of the reader on what is left: a failure is always reported as a "
              "data-access error and success only when the whole stream is on disk; MAIN: afterwards a reader "
              "gets what it got before, or exactly the new array, or an error - never another array - for any "
-             "codec refusing strict prefixes of its output; raw meets that hypothesis for every item size "
-             "(proved) and the statement is given outright for raw, plain or gzip; a shard file with a zeroed "
+             "codec that refuses a prefix of its output or decodes it to the encoded array; raw and "
+             "compressed_segmentation (the package's own decoder, via conformance to the specification "
+             "decoder and monotonicity of the latter under prefixes) meet that hypothesis (proved), and the "
+             "statement is given outright for both, plain or gzip; a shard file with a zeroed "
              "index placeholder followed by ANY prefix of data and indices lists no chunk, for every sharding "
              "specification, and one shorter than the placeholder is refused; failing HTTP requests are errors "
              "for both readers. Tie/oracle: call-site level injection - for EVERY recorded I/O call of every "
@@ -24,8 +26,8 @@ CLAIMS = {
              "compressed_segmentation, jpeg x plain, gzip) and of shard files; every request of HTTP operations "
              "failing 9 ways.",
         note="Trusted: Lean kernel; standard axioms; hand-written primitive-level model (tie = exhaustive over "
-             "the recorded traces per dataset); gzip refusing strict prefixes and compressed_segmentation/jpeg "
-             "refusing strict prefixes are hypotheses validated on every prefix tried, not theorems; kernel "
+             "the recorded traces per dataset); gzip refusing non-empty strict prefixes is a modelling assumption "
+             "and jpeg truncation an external, both validated on every prefix tried, not theorems; kernel "
              "write-back/power-loss behaviour and torn final index writes are outside the model.",
         technique="Lean 4 proof (case analysis over failure/interruption events, prefix rejection, zero-index "
                   "shard) + exhaustive call-site fault and kill injection on the real accessors",
